@@ -183,14 +183,15 @@ func (w *c12world) stop(sl *c12slot) {
 	c := w.c
 	w.settle()
 	sl.cancel()
-	c.S.Sleep(time.Millisecond) // lets the epoch loop observe the cancellation
-	c.S.Kill(sl.tok)
 	w.st.dropWatchers(sl.h)
+	c.S.Sleep(time.Millisecond) // the epoch loop and the watch pump observe the shutdown and return
+	c.S.Kill(sl.tok)
 	sl.up, sl.downHow = false, "stop"
 	c.S.Fault("crash.graceful")
 }
 
 func (w *c12world) settle() {
+	w.st.releaseHolds()
 	w.c.S.WaitUntil(w.st.settled)
 }
 
@@ -561,8 +562,8 @@ func init() {
 		Stub: []string{"distributed store backend (scn.c12store behind allocator.Store replaces nexus.MemoryStore/CLSet: tape-ordered Query, injectable errors, watch fan-out through scheduler tasks)",
 			"AllocationStore failure injection wrapper around the real MemoryAllocationStore"},
 		Rule:         "cases: 5-30 allocate/renew/release/tick/stop/restart/err-at/crash-at ops over <=6 subscribers, pools of 2-14 units, 1-3 nodes; crash before/after a chosen store call, Query order from the tape, watch delay/dup/reorder; fault-free tail restarts every node from the store; non-trivial = >=3 completed operations and (a fault fired or >2 context switches); distinct = distinct (case hash, schedule fingerprint)",
-		QuickRuns:    6000,
-		ThoroughRuns: 400000,
+		QuickRuns:    20000,
+		ThoroughRuns: 600000,
 		Assumptions: []string{"the store itself is linearizable and a failed call has no effect (clean failure)", "a watcher registered by a crashed or stopped node receives nothing further",
 			"restart oracle skips prefixes that two store records claim (multi-writer conflicts belong to C01/C17)",
 			"store-failure oracle applies only when memory and store agreed for the subscriber before the failing operation",
